@@ -37,6 +37,7 @@ Read(s, v) == IF v.kind = "det" THEN v.snap
                     ty |-> [k \in DOMAIN v.idx |-> s.data[v.owner].ty[v.idx[k] + 1]],
                     id |-> v.idx]
 
+WCols == {"x", "ty", "e"}             \* the columns a history writes through node handles
 EnabledAll(P, s, Keys, Vals) ==
     LET n == Len(P)  T == DOMAIN s.data  V == DOMAIN s.views IN
        { [a |-> "node", t |-> t, key |-> key] : t \in T, key \in { q \in Keys : KeyOK(n, q) } }
@@ -45,7 +46,7 @@ EnabledAll(P, s, Keys, Vals) ==
   \cup { [a |-> "path", t |-> t, tip |-> tip] : t \in T, tip \in Tips(P) }
   \cup { [a |-> "branch", t |-> t, b |-> b] : t \in T, b \in 1 .. Len(BranchSeq(P)) }
   \cup { [a |-> "seg", t |-> t, c |-> c] : t \in T, c \in 1 .. n - 1 }
-  \cup { [a |-> "write", v |-> v, col |-> col, val |-> val] : v \in { w \in V : s.views[w].kind = "node" }, col \in {"x", "ty"}, val \in Vals }
+  \cup { [a |-> "write", v |-> v, col |-> col, val |-> val] : v \in { w \in V : s.views[w].kind = "node" }, col \in WCols, val \in Vals }
   \cup { [a |-> "copy", t |-> t] : t \in T }
   \cup { [a |-> "detach", v |-> v] : v \in { w \in V : s.views[w].kind \in {"node", "path", "branch", "seg"} } }
 
@@ -62,11 +63,12 @@ Do(P, s, act) ==
       [] act.a = "seg"    -> [s EXCEPT !.views = Append(@, View("seg", act.t, <<Par(P, act.c), act.c>>))]
       [] act.a = "write"  -> LET v == s.views[act.v] IN
                              IF act.col = "x" THEN [s EXCEPT !.data[v.owner].x[v.idx[1] + 1] = act.val]
+                             ELSE IF act.col = "e" THEN [s EXCEPT !.data[v.owner].e[v.idx[1] + 1] = act.val]
                                               ELSE [s EXCEPT !.data[v.owner].ty[v.idx[1] + 1] = act.val]
       [] act.a = "copy"   -> [s EXCEPT !.data = Append(@, s.data[act.t])]
       [] act.a = "detach" -> [s EXCEPT !.views = Append(@, [kind |-> "det", owner |-> 0, idx |-> s.views[act.v].idx, snap |-> Read(s, s.views[act.v])])]
 
-\* column e is an extra (non-SWC) per-node column: never written, must survive copies
+\* column e is an extra (non-SWC) per-node column: it survives copies and is written through node handles like any other column
 S0(P) == [data |-> << [x |-> [k \in 1 .. Len(P) |-> 10 + k], ty |-> [k \in 1 .. Len(P) |-> 1 + (k % 3)], e |-> [k \in 1 .. Len(P) |-> 50 + k]] >>, views |-> <<>>]
 
 \* everything every live object reports, in a fixed order (trees first, then views)
